@@ -580,6 +580,11 @@ def run(tier, seed, replay=None):
         p = rep.replay_file("build_failed.txt", err)
         rep.violation(p, "white-box driver does not build against this tree", nofail=True)
         return rep.finish()
+    # scratch builds under /tmp are evicted by concurrent runs: work on a private copy
+    import shutil
+    priv = os.path.join(rep.outdir, "wb_url.bin")
+    shutil.copy2(impl, priv)
+    impl = priv
     model = model_bin("modeld_url")
     schemes, ponly, flags = consts_tables()
     rng = random.Random(seed)
@@ -597,14 +602,6 @@ def run(tier, seed, replay=None):
     B = 1500
     for b0 in range(0, len(cases), B):
         batch = cases[b0:b0 + B]
-        if not os.path.exists(impl):   # scratch builds are evicted by concurrent runs: rebuild
-            bdir, err = nng_build("asan")
-            impl, err = wb_build(bdir, "wb_url.c") if bdir else (None, err)
-            if impl is None:
-                p = rep.replay_file("build_failed.txt", err)
-                rep.violation(p, "nng / white-box driver does not build", nofail=True)
-                return rep.finish()
-            oracle.impl = impl
         iout, crashed = [], set()
         start = 0
         while start < len(batch):
